@@ -239,6 +239,54 @@ Proof.
     exists (ev2 ++ ev3). rewrite K6, app_assoc. split; auto. apply Forall_app. auto.
 Qed.
 
+(* ---- elements only disappear through removals -------------------------------------------------------- *)
+Lemma missing_none l l' : (forall p, In p l -> exists n, In n l' /\ n_id n = n_id p) -> missing l l' = [].
+Proof.
+  intros H. unfold missing. induction l as [|x l IH]; cbn [filter]; auto.
+  destruct (H x ltac:(cbn; auto)) as (n & Hn & E).
+  assert (Hx : existsb (fun n0 => (n_id n0 =? n_id x)%nat) l' = true).
+  { apply existsb_exists. exists n. split; auto. apply Nat.eqb_eq. exact E. }
+  rewrite Hx. cbn [negb]. apply IH. intros p Hp. apply H. cbn. auto.
+Qed.
+
+Lemma missing_refl l : missing l l = [].
+Proof. apply missing_none. intros p Hp. exists p. auto. Qed.
+
+Lemma missing_app l1 l2 l' : missing (l1 ++ l2) l' = missing l1 l' ++ missing l2 l'.
+Proof. unfold missing. apply filter_app. Qed.
+
+Lemma missing_remove_one l1 nd l2 : (length (missing (l1 ++ nd :: l2) (l1 ++ l2)) <= 1)%nat.
+Proof.
+  rewrite missing_app. change (nd :: l2) with ([nd] ++ l2). rewrite missing_app.
+  rewrite (missing_none l1), (missing_none l2).
+  - cbn [app]. rewrite app_nil_r. unfold missing. cbn [filter]. destruct (negb _); cbn; lia.
+  - intros p Hp. exists p. split; auto. apply in_or_app. auto.
+  - intros p Hp. exists p. split; auto. apply in_or_app. auto.
+Qed.
+
+Lemma lost_insert k pos key val c ser nid c' ser' nid' ev :
+  shape k c -> c_insert k pos key val c ser nid = (c', ser', nid', ev) -> missing (elems c) (elems c') = [].
+Proof.
+  intros Hs E.
+  destruct (c_insert_effect _ _ _ _ _ _ _ _ _ _ _ Hs E)
+    as (_ & _ & [(_ & _ & _ & Hel)|(_ & nd & l1 & l2 & ser1 & ev1 & ev2 & E1 & E2 & _)]).
+  - destruct Hel as [->|(_ & l1 & x & l2 & F1 & F2 & _)]; [apply missing_refl|].
+    rewrite F1, F2. apply missing_none. intros p Hp. apply in_app_or in Hp. destruct Hp as [Hp|[<-|Hp]].
+    + exists p. split; auto. apply in_or_app. auto.
+    + exists (set_val x val). split; [apply in_or_app; cbn; auto|reflexivity].
+    + exists p. split; auto. apply in_or_app. cbn. auto.
+  - rewrite E1, E2. apply missing_none. intros p Hp. exists p. split; auto.
+    apply in_app_or in Hp. apply in_or_app. cbn. tauto.
+Qed.
+
+Lemma lost_remove k pos c c' ev :
+  shape k c -> c_remove_at pos c = (c', ev) -> (length (missing (elems c) (elems c')) <= 1)%nat.
+Proof.
+  intros Hs E. destruct (c_remove_at_effect _ _ _ _ _ Hs E) as (_ & [(-> & _)|(nd & l1 & l2 & E1 & E2 & _)]).
+  - rewrite missing_refl. cbn. lia.
+  - rewrite E1, E2. apply missing_remove_one.
+Qed.
+
 (* ---- states ------------------------------------------------------------------------------------------ *)
 Definition all_elems (st : state) : list node := elems (s_a st) ++ elems (s_b st).
 
@@ -283,7 +331,8 @@ Record StepFacts (k : kind) (st : state) (o : op) (st' : state) (ev : list event
   sf_free : o <> ODestroy -> Forall not_free ev;
   sf_cur : cont_op o = true -> s_cur st' = s_cur st;
   sf_other : cont_op o = true -> other st' = other st;
-  sf_nodes : cont_op o = true -> node_step k (may_assign k o) (s_nid st) ev (elems (sel st)) (elems (sel st')) }.
+  sf_nodes : cont_op o = true -> node_step k (may_assign k o) (s_nid st) ev (elems (sel st)) (elems (sel st'));
+  sf_lost : cont_op o = true -> removed_ok o (elems (sel st)) (elems (sel st')) = true }.
 
 Lemma node_step_ext k A B nid ev l l' :
   (forall x, A x = true -> B x = true) -> node_step k A nid ev l l' -> node_step k B nid ev l l'.
@@ -297,9 +346,10 @@ Lemma facts_set_sel k st o c' ser' nid' ev :
   PInv c' (other st) ser' nid' -> shape k c' -> (s_ser st <= ser')%nat -> (s_nid st <= nid')%nat ->
   Forall (des_ok (elems (sel st))) ev -> (is_pool k = true -> Forall pool_ok ev) -> (o <> ODestroy -> Forall not_free ev) ->
   node_step k (may_assign k o) (s_nid st) ev (elems (sel st)) (elems c') ->
+  removed_ok o (elems (sel st)) (elems c') = true ->
   StepFacts k st o (set_sel st c' ser' nid') ev.
 Proof.
-  intros HI Hp Hs Hser Hnid Hd Hpool Hfree Hns.
+  intros HI Hp Hs Hser Hnid Hd Hpool Hfree Hns Hlost.
   destruct (set_sel_facts st c' ser' nid') as (F1 & F2 & F3 & F4 & F5).
   destruct (Inv_sel _ _ HI) as (_ & _ & Hso).
   constructor; rewrite ?F1, ?F2, ?F3, ?F4, ?F5; auto.
@@ -308,15 +358,17 @@ Qed.
 
 Lemma facts_noop k st o : Inv k st -> StepFacts k st o st [].
 Proof.
-  intros HI. constructor; auto. intros _. apply node_step_same.
+  intros HI. constructor; auto.
+  - intros _. apply node_step_same.
+  - intros _. unfold removed_ok. rewrite missing_refl. destruct (removal_budget o); reflexivity.
 Qed.
 
 Lemma facts_insert k st o pos key val c' ser' nid' ev :
-  Inv k st -> (forall x, may_assign k o x = key_assign k key x) ->
+  Inv k st -> (forall x, may_assign k o x = key_assign k key x) -> removal_budget o = Some O ->
   c_insert k pos key val (sel st) (s_ser st) (s_nid st) = (c', ser', nid', ev) ->
   StepFacts k st o (set_sel st c' ser' nid') ev.
 Proof.
-  intros HI HA E. destruct (Inv_sel _ _ HI) as (Hp & Hs & Hso).
+  intros HI HA Hb E. destruct (Inv_sel _ _ HI) as (Hp & Hs & Hso).
   destruct (PInv_insert _ _ _ _ _ _ _ _ _ _ _ _ Hs Hp E) as (Hp' & Hser & Hnid).
   destruct (c_insert_effect _ _ _ _ _ _ _ _ _ _ _ Hs E) as (Hs' & Hev & _).
   apply facts_set_sel; auto.
@@ -324,14 +376,15 @@ Proof.
   - intros Hpool. eapply Forall_impl; [|exact Hev]. intros e. apply ins_ev_pool. exact Hpool.
   - intros _. eapply Forall_impl; [|exact Hev]. intros e. apply ins_ev_not_free.
   - eapply node_step_ext; [|eapply node_step_insert; eauto]. intros x Hx. rewrite HA. exact Hx.
+  - unfold removed_ok. rewrite Hb, (lost_insert _ _ _ _ _ _ _ _ _ _ _ Hs E). reflexivity.
 Qed.
 
 Lemma facts_remove k st o pos c' ev :
-  Inv k st -> o <> ODestroy ->
+  Inv k st -> o <> ODestroy -> removal_budget o = Some 1%nat ->
   c_remove_at pos (sel st) = (c', ev) ->
   StepFacts k st o (set_sel st c' (s_ser st) (s_nid st)) ev.
 Proof.
-  intros HI Hno E. destruct (Inv_sel _ _ HI) as (Hp & Hs & Hso).
+  intros HI Hno Hb E. destruct (Inv_sel _ _ HI) as (Hp & Hs & Hso).
   pose proof (PInv_remove _ _ _ _ _ _ _ _ Hs Hp E) as Hp'.
   destruct (c_remove_at_effect _ _ _ _ _ Hs E) as (Hs' & Hev).
   assert (Hev' : ev = [] \/ exists nd, In nd (elems (sel st)) /\ ev = [EDestroy (n_id nd) (n_slot nd)]).
@@ -342,6 +395,7 @@ Proof.
   - intros _. destruct Hev' as [->|(nd & Hin & ->)]; repeat constructor.
   - intros _. destruct Hev' as [->|(nd & Hin & ->)]; repeat constructor.
   - eapply node_step_remove; eauto.
+  - unfold removed_ok. rewrite Hb. apply Nat.leb_le. eapply lost_remove; eauto.
 Qed.
 
 Lemma c_assign_eq k src c ser nid :
